@@ -47,6 +47,13 @@ def preFixTable : FlowTable :=
 theorem preFix_storage_class_not_migrated :
     observableFields.filter (fun f => !flows preFixTable f) = [.storageClass] := by decide
 
+/-- The destination-emptiness test lists every object of the destination bucket (the paginating helper
+`storage.ListAllObjectsOfBucket`: no delimiter, no prefix, no page limit) and refuses as soon as there is
+one — this is what `Migrator.hasCurrent` models: any current object, whatever the shape of its key. -/
+theorem destination_probe_lists_every_object :
+    Gen.MigratorFlow.destinationProbe = "storage.ListAllObjectsOfBucket(ctx, destination, bucketName)" ∧
+    Gen.MigratorFlow.destinationNotEmptyCondition = "len(destinationObjects) != 0" := by decide
+
 /-! ### Migration over two storage states -/
 
 /-- Every destination bucket that held a current object before is exactly as it was. -/
@@ -242,6 +249,18 @@ example :
   intro bk hbk
   simp only [exSrc, List.mem_cons, List.mem_nil_iff, or_false] at hbk
   rcases hbk with rfl | rfl <;> unfold LatestUnique <;> decide
+
+/-- `hasCurrent` does not depend on the shape of the keys: a destination bucket holding only keys below
+folder-like prefixes blocks the migration like any other (the history of directed case 7). -/
+def nestedRow : Row :=
+  { rowId := 0, key := "photos/2024/a.jpg", vid := none, latest := true, created := 0, updated := 0, wrote := 0,
+    parts := [[9]] }
+def nestedOnlyDst : State := { buckets := [{ name := "a", rows := [nestedRow] }] }
+
+theorem nested_only_destination_blocks :
+    (migrate Quirks.code idealParams exSrc nestedOnlyDst).ok = false ∧
+    cur (migrate Quirks.code idealParams exSrc nestedOnlyDst).dst "a" "photos/2024/a.jpg" = cur nestedOnlyDst "a" "photos/2024/a.jpg" ∧
+    cur (migrate Quirks.code idealParams exSrc nestedOnlyDst).dst "a" "k" = none := by decide
 
 /-- Non-vacuity of `nonempty_dst_fails_unchanged`: a destination bucket of a source bucket's name with
 one object. -/
